@@ -1,5 +1,7 @@
 import DendroModel.Model.C17
 import DendroModel.Theory.C17Perm
+import DendroModel.Theory.C17Ext
+import DendroModel.Theory.C17Gamma
 /-! C17 — property theorems about the definitions that `drv_c17` executes (`Model/C17.lean`).
 Numbers are read in ℚ through `Frac.toRat`; `WFT t` says every edge length of `t` is a fraction with non-zero
 denominator (all values arriving over the protocol are).  Specification vocabulary (`Theory/C17*.lean`):
@@ -11,10 +13,11 @@ lengths agree within `ε`, `fage v` the age `calc_node_ages` assigns without for
 * `ages_spec`, `ages_exact_spec`, `age_is_tip_distance`, `reject_iff_local`, `accepted_bound`, `reject_beyond_bound`,
   `reject_only_beyond_precision`,
   `check_disabled_spec`, `force_max_spec`, `force_min_spec`, `force_both_spec` — clause (a)/(b) for ages
-* `lengths_from_ages_roundtrip_partial`, `lineages_spec`, `leaf_depths_spec`, `minmax_spec` — clause (a)
+* `lengths_from_ages_roundtrip_partial` (exact), `lengths_from_ages_within`, `lineages_spec`, `leaf_depths_spec`, `node_depths_spec`, `minmax_spec`, `resolve_ages_spec`,
+  `returned_list_spec`, `set_lengths_spec`, `lineages_between_speciations` — clause (a)
 * `length_eq_def`, `sackin_eq_def`, `nbar_eq_def`, `colless_eq_def`, `b1_eq_def`, `treeness_eq_def`, `gamma_loop_eq_sums`,
-  `gamma_eq_def_partial` — clause (c)
-* `stats_perm_invariant_partial` — child-order independence of all statistics except gamma (tested only). -/
+  `gamma_eq_def_partial`, `gamma_eq_def` (with `lineages_between_speciations`) — clause (c)
+* `stats_perm_invariant_partial` (all but gamma), `gamma_perm_invariant`, `stats_perm_invariant` — child-order independence. -/
 namespace DendroModel.C17.Aux
 open DendroModel DendroModel.C17
 
@@ -109,7 +112,21 @@ theorem depthsL_spec : ∀ (cs : List T) (d : Frac), d.WF → WFTL cs → NoNone
     intro a _; simp only [Function.comp]; ring
 end
 
-def isBif (v : T) : Bool := v.cs.length == 2
+mutual
+theorem binary_nodes : ∀ t : T, binary t = true → ∀ v ∈ T.nodes t, isBif v = !v.isLeaf
+  | .node i x l s [], _, v, hv => by
+    simp only [T.nodes, T.nodesL, List.mem_singleton] at hv
+    subst hv; rfl
+  | .node i x l s [a], hb, _, _ => by simp [binary] at hb
+  | .node i x l s (a :: b :: c :: r), hb, _, _ => by simp [binary] at hb
+  | .node i x l s [a, b], hb, v, hv => by
+    simp only [binary, Bool.and_eq_true] at hb
+    simp only [T.nodes, T.nodesL, List.append_nil, List.mem_cons, List.mem_append] at hv
+    rcases hv with rfl | hv | hv
+    · rfl
+    · exact binary_nodes a hb.1 v hv
+    · exact binary_nodes b hb.2 v hv
+end
 
 mutual
 theorem specAges_annot : ∀ t : T,
@@ -165,6 +182,50 @@ theorem gammaSignedSq_spec {num tt : Frac} {n : Nat} (hn : num.WF) (ht : tt.WF) 
       rw [Frac.zero_toRat] at this
       simp only [hf, Bool.false_eq_true, if_false] at h
       rw [← h, hsq]; simp [not_lt.mpr this]
+
+theorem checking_prec {prec : Option Frac} {p : Frac} (h : Cfg.checking ⟨prec, false, false⟩ = some p) : prec = some p := by
+  unfold Cfg.checking at h
+  simp only [Bool.or_self, Bool.false_eq_true, if_false] at h
+  cases prec with
+  | none => cases h
+  | some q =>
+    simp only at h
+    split at h
+    · cases h
+    · exact congrArg some (Option.some.inj h)
+
+theorem accept_exact (prec : Option Frac) (hprec : ∀ p, prec = some p → p.WF) (t : T) (hw : WFT t) (hu : Within 0 t) :
+    calcNodeAges ⟨prec, false, false⟩ t = .ok (annot t) := by
+  cases hc : Cfg.checking ⟨prec, false, false⟩ with
+  | none => rw [calcNodeAges_nonforce rfl rfl, hc, allWithin_none]; rfl
+  | some p =>
+    have hp : p.WF := hprec p (checking_prec hc)
+    have hp0 := checking_nonneg hp hc
+    have hloc : allWithin (some p) t = true :=
+      (allWithin_iff hp t hw).mpr (LocalOK_of_Within t (fun d hd d' hd' => le_trans (hu d hd d' hd') hp0))
+    rw [calcNodeAges_nonforce rfl rfl, hc, hloc]; rfl
+
+theorem specAges_values (t : T) (hw : WFT t) :
+    ((specAges (annot t)).1.map Frac.toRat).Perm (bifAges t) ∧ (∀ x ∈ (specAges (annot t)).1, x.WF) ∧
+    (specAges (annot t)).2 = nonBifStat.f t := by
+  obtain ⟨hperm, hcount⟩ := specAges_annot t
+  refine ⟨?_, ?_, hcount⟩
+  · have h1 := hperm.map Frac.toRat
+    have h2 : (((T.nodes t).filter isBif).map fage).map Frac.toRat = bifAges t := by
+      rw [List.map_map]
+      apply List.map_congr_left
+      intro v hv
+      exact fage_toRat v (nodes_wft t hw v (List.mem_filter.mp hv).1)
+    rw [h2] at h1; exact h1
+  · intro x hx
+    obtain ⟨v, _, rfl⟩ := List.mem_map.mp (hperm.subset hx)
+    exact fage_wf v
+
+theorem gamma_unfold (prec : Option Frac) (hprec : ∀ p, prec = some p → p.WF) (t : T) (hw : WFT t) (hu : Within 0 t) :
+    gamma prec t = (match gammaParts (annot t) with
+      | .error e => .error e
+      | .ok p => gammaSignedSq p) := by
+  unfold gamma; rw [accept_exact prec hprec t hw hu]; rfl
 
 end DendroModel.C17.Aux
 
@@ -341,6 +402,49 @@ theorem lengths_from_ages_roundtrip_partial {cfg : Cfg} {p : Frac} (minLen : Opt
     · simp only [annot, setLens, hr]
     · simp only [atLens, tLens, hl]
 
+/-- Lengths from ages within the precision: whenever `calc_node_ages` ACCEPTS a tree with non-negative edge lengths at
+precision `p` (no forcing) and `set_edge_lengths_from_node_ages` then runs with a minimum length that is `None` or
+≤ 0 (the error flag only together with a minimum of 0, as by default), it succeeds, keeps ids and order, and every
+edge length comes back within `p` of the original (`None` read as 0; first children exactly; the seed's untouched). -/
+theorem lengths_from_ages_within {cfg : Cfg} {p : Frac} (minLen : Option Frac) (errNeg : Bool) (t : T)
+    (hw : WFT t) (hp : p.WF) (hc : cfg.checking = some p) (hnn : NonNeg t) (hm : MinOK minLen)
+    (hneg : NegOK minLen errNeg) {a : AT} (h : calcNodeAges cfg t = .ok a) :
+    ∃ a', setLens minLen errNeg a = .ok a' ∧ List.Forall₂ (LensClose p.toRat) (atLens a') (tLens t) := by
+  obtain ⟨h1, h2⟩ := checking_some hc
+  have ha := (age_is_tip_distance t hw h1 h2 h).1
+  have hloc : LocalOK p.toRat t := ((reject_iff_local t hw hp hc).2).mp (by rw [h, ha])
+  have hp0 := checking_nonneg hp hc
+  subst ha
+  match t, hw, hloc, hnn with
+  | .node i x l s cs, hw, hloc, hnn =>
+    have hlocL : LocalOKL p.toRat cs := by
+      match cs, hloc with
+      | [], _ => simp [LocalOKL]
+      | c :: cs', hl => exact hl.1
+    have hpar : ∀ k ∈ cs, |(fage (.node i x l s cs)).toRat - (fageQ k + qlen k.len)| ≤ p.toRat := by
+      intro k hk
+      rw [fage_toRat _ hw]
+      match cs, hk, hloc with
+      | c :: cs', hk, hl =>
+        rcases List.mem_cons.mp hk with rfl | hk'
+        · simpa [fageQ] using hp0
+        · simpa [fageQ] using hl.2 k hk'
+    obtain ⟨r, hr, hl⟩ := setLensL_within hm hneg hp0 cs (fage (.node i x l s cs)) (fage_wf _) hw.2 hlocL hnn hpar
+    refine ⟨.node i (fage (.node i x l s cs)) l r, by simp only [annot, setLens, hr], ?_⟩
+    simp only [atLens, tLens]
+    exact List.Forall₂.cons ⟨rfl, by simpa using hp0⟩ hl
+
+/-- Lengths from ages, the full clause: an accepted tree gets every length back within the precision
+(`lengths_from_ages_within`), and an exactly ultrametric one gets them back exactly
+(`lengths_from_ages_roundtrip_partial`, which this supersedes). -/
+theorem lengths_from_ages_roundtrip {cfg : Cfg} {p : Frac} (minLen : Option Frac) (errNeg : Bool) (t : T)
+    (hw : WFT t) (hp : p.WF) (hc : cfg.checking = some p) (hnn : NonNeg t) (hm : MinOK minLen) :
+    (NegOK minLen errNeg → ∀ a, calcNodeAges cfg t = .ok a →
+      ∃ a', setLens minLen errNeg a = .ok a' ∧ List.Forall₂ (LensClose p.toRat) (atLens a') (tLens t)) ∧
+    (Within 0 t → ∃ a a', calcNodeAges cfg t = .ok a ∧ setLens minLen errNeg a = .ok a' ∧ atLens a' = tLens t) :=
+  ⟨fun hneg _ h => lengths_from_ages_within minLen errNeg t hw hp hc hnn hm hneg h,
+   fun hu => lengths_from_ages_roundtrip_partial minLen errNeg t hw hp hc hu hnn hm⟩
+
 /-- The number of lineages at distance `d` from the root is the number of edges whose tail is closer than `d`
 and whose head is at `d` or beyond (all edges below the root of positive length). -/
 theorem lineages_spec (d : Frac) (hd : d.WF) (t : T) (hpos : Pos t) :
@@ -385,6 +489,141 @@ theorem minmax_spec (t : T) (hw : WFT t) (hn : NoNone t) :
       rw [← hmap] at hd
       obtain ⟨y, hy, rfl⟩ := List.mem_map.mp hd
       exact ⟨minList_le xs x hx hxs y hy, maxList_ge xs x hx hxs y hy⟩
+
+/-- Root distances of ALL nodes (`resolve_node_depths`, `calc_node_root_distances`): the value accumulated from the
+root downwards is, for every node `v` (ids, leaf flags and pre-order kept), the length of the path from the root to
+`v` as built from `v` upwards (`below`); `below` lists exactly the nodes of the tree, and that distance plus the
+distance from `v` to any of its tips is a root-to-tip path length. -/
+theorem node_depths_spec (t : T) (hw : WFT t) (hn : NoNone t) :
+    ∃ r, rootDepths t = .ok r ∧
+      r.map (fun p => (p.1, p.2.1, p.2.2.toRat)) = (below t).map (fun q => (q.1.id, q.1.isLeaf, q.2)) ∧
+      (below t).map (·.1) = T.nodes t ∧
+      ∀ q ∈ below t, ∀ y ∈ tipDists q.1, q.2 + y ∈ tipDists t := by
+  obtain ⟨r, hr, hl⟩ := depths_all t Frac.zero Frac.zero_wf hw hn
+  exact ⟨r, hr, by simpa [Frac.zero_toRat] using hl, below_fst t, below_tip t⟩
+
+/-- Lineages between speciation events (Pybus & Harvey's reading of the intervals).  On a strictly bifurcating,
+exactly ultrametric tree with positive edge lengths, let `S` be the ages of the bifurcating nodes sorted in
+descending order (as `pybus_harvey_gamma` sorts them) and `H` the root's age.  At every distance `d` from the root
+with `H − S_j < d ≤ H − S_{j+1}` (`S_len = 0`; `0 < d ≤ H`), `num_lineages_at d` is exactly `j + 2`: the interval
+`g_j = S_j − S_{j+1}` of `gamma_eq_def` is the time during which `j + 2` lineages exist. -/
+theorem lineages_between_speciations (t : T) (hw : WFT t) (hb : binary t = true) (hpos : Pos t) (hu : Within 0 t)
+    (d : Frac) (hd : d.WF) (hd0 : 0 < d.toRat) (hdH : d.toRat ≤ (fage t).toRat) (j : Nat)
+    (hj : j < ((sortDesc (specAges (annot t)).1).map Frac.toRat).length)
+    (hlo : (fage t).toRat - ((sortDesc (specAges (annot t)).1).map Frac.toRat).getD j 0 < d.toRat)
+    (hhi : d.toRat ≤ (fage t).toRat - ((sortDesc (specAges (annot t)).1).map Frac.toRat).getD (j + 1) 0) :
+    numLineagesAt d t = .ok (j + 2) := by
+  obtain ⟨hperm, _⟩ := specAges_annot t
+  have hwfS : ∀ x ∈ (specAges (annot t)).1, x.WF := by
+    intro x hx
+    obtain ⟨v, _, rfl⟩ := List.mem_map.mp (hperm.subset hx)
+    exact fage_wf v
+  have hH : (fage t).toRat = fageQ t := fage_toRat t hw
+  have htip : ∀ x ∈ tipDists t, (0 : ℚ) + x = (fage t).toRat := by
+    intro x hx
+    have := abs_nonpos_iff.mp (hu x hx (fageQ t) (fageQ_mem t))
+    rw [hH]; linarith
+  -- the count over the sorted list equals the count over the internal nodes
+  have hcount : ((sortDesc (specAges (annot t)).1).map Frac.toRat).countP
+        (fun a => decide ((fage t).toRat - d.toRat < a))
+      = (T.nodes t).countP (fun v => !v.isLeaf && decide ((fage t).toRat - d.toRat < fageQ v)) := by
+    have hp2 : ((sortDesc (specAges (annot t)).1).map Frac.toRat).Perm
+        ((((T.nodes t).filter isBif).map fage).map Frac.toRat) := ((sortDesc_perm _).trans hperm).map _
+    rw [hp2.countP_eq, List.countP_map, List.countP_map, List.countP_filter]
+    apply List.countP_congr
+    intro v hv
+    have hvq : (fage v).toRat = fageQ v := fage_toRat v (nodes_wft t hw v hv)
+    simp only [Function.comp, hvq, binary_nodes t hb v hv, Bool.and_eq_true, decide_eq_true_eq]
+    exact ⟨fun h => ⟨h.2, h.1⟩, fun h => ⟨h.2, h.1⟩⟩
+  have hdesc : ((sortDesc (specAges (annot t)).1).map Frac.toRat).Pairwise (fun a b => b ≤ a) :=
+    List.pairwise_map.mpr (sortDesc_desc _ hwfS)
+  have hS := countP_desc _ j ((fage t).toRat - d.toRat) hdesc hj (by linarith) (fun _ => by linarith)
+  cases t with
+  | node i x l s cs =>
+    cases cs with
+    | nil => simp [annot, annotL, specAges, specAgesL, sortDesc] at hj
+    | cons c cs =>
+      have hc := cross_count d.toRat (fage (.node i x l s (c :: cs))).toRat hdH (.node i x l s (c :: cs)) 0 hb hpos htip
+      have hi := intBefore_ages d.toRat (fage (.node i x l s (c :: cs))).toRat (.node i x l s (c :: cs)) 0 htip
+      rw [lineages_spec d hd _ hpos]
+      have : (fun e : ℚ × ℚ => decide (e.1 < d.toRat ∧ d.toRat ≤ e.2)) = crossQ d.toRat := rfl
+      rw [this, hc, hi, ← hcount, hS]
+      simp [T.isLeaf, T.cs, hd0]
+
+/-- The list `calc_node_ages` returns (`node_ages`, `internal_node_ages` sort it): exactly the ages of all nodes, or of
+the internal nodes only when so requested — as a multiset — whatever ages the nodes carry; and for the trees produced
+without / with a forcing option those are the `(is_leaf, age)` pairs of the tree's nodes. -/
+theorem returned_list_spec (io : Bool) :
+    (∀ a : AT, (a.returned io).Perm (((flagged a).filter (fun p => !io || !p.1)).map (·.2))) ∧
+    (∀ t : T, flagged (annot t) = (T.nodes t).map (fun v => (v.isLeaf, fage v))) ∧
+    (∀ pick (t : T), flagged (annotP pick t) = (T.nodes t).map (fun v => (v.isLeaf, page pick v))) :=
+  ⟨returned_perm io, flagged_annot, flagged_annotP⟩
+
+/-- `resolve_node_ages`: every node's age is `m − (its distance from the root)` where `m` is the largest distance of any
+node from the root (ids and pre-order kept; no `None` length below the root). -/
+theorem resolve_ages_spec (t : T) (hw : WFT t) (hn : NoNone t) :
+    ∃ r, ∃ m : ℚ, resolveAges t = .ok r ∧ m ∈ (below t).map (·.2) ∧ (∀ x ∈ (below t).map (·.2), x ≤ m) ∧
+      r.map (fun p => (p.1, p.2.toRat)) = (below t).map (fun q => (q.1.id, m - q.2)) := by
+  obtain ⟨r0, hr0, hE⟩ := depths_all t Frac.zero Frac.zero_wf hw hn
+  obtain ⟨r1, hr1, _, hwf⟩ := depths_spec t Frac.zero Frac.zero_wf hw hn
+  have : r1 = r0 := by rw [hr0] at hr1; exact (Except.ok.inj hr1).symm
+  subst this
+  simp only [Frac.zero_toRat, add_zero] at hE
+  have hD : r1.map (fun p => p.2.2.toRat) = (below t).map (·.2) := by
+    have := congrArg (List.map (fun (z : Nat × Bool × ℚ) => z.2.2)) hE
+    rw [List.map_map, List.map_map] at this
+    exact this
+  cases hr : r1 with
+  | nil =>
+    rw [hr] at hE
+    cases t with
+    | node i x l s cs => simp [below] at hE
+  | cons x xs =>
+    rw [hr] at hD hwf hE hr0
+    have hx := hwf x List.mem_cons_self
+    have hxs : ∀ y ∈ xs.map (·.2.2), y.WF := by
+      intro y hy
+      obtain ⟨p, hp, rfl⟩ := List.mem_map.mp hy
+      exact hwf p (List.mem_cons_of_mem _ hp)
+    have hmw : (maxList x.2.2 (xs.map (·.2.2))).WF := by
+      rcases List.mem_cons.mp (maxList_mem (xs.map (·.2.2)) x.2.2) with h | h
+      · rw [h]; exact hx
+      · exact hxs _ h
+    have hall : (x.2.2 :: xs.map (·.2.2)).map Frac.toRat = (below t).map (·.2) := by
+      rw [← hD]; simp [List.map_map, Function.comp]
+    refine ⟨(x :: xs).map (fun p => (p.1, maxList x.2.2 (xs.map (·.2.2)) - p.2.2)),
+      (maxList x.2.2 (xs.map (·.2.2))).toRat, by simp [resolveAges, rootDepths, hr0], ?_, ?_, ?_⟩
+    · rw [← hall]; exact List.mem_map.mpr ⟨_, maxList_mem _ _, rfl⟩
+    · intro y hy
+      rw [← hall] at hy
+      obtain ⟨z, hz, rfl⟩ := List.mem_map.mp hy
+      exact maxList_ge _ _ hx hxs z hz
+    · have := congrArg (List.map (fun (z : Nat × Bool × ℚ) =>
+        (z.1, (maxList x.2.2 (xs.map (·.2.2))).toRat - z.2.2))) hE
+      simp only [List.map_map] at this ⊢
+      refine Eq.trans ?_ (this.trans rfl)
+      apply List.map_congr_left
+      intro p hp
+      simp only [Function.comp, Prod.mk.injEq, true_and]
+      exact Frac.sub_toRat hmw (hwf p hp)
+
+/-- `set_edge_lengths_from_node_ages` on ARBITRARY ages (`age` attributes set by any means), every minimum length and
+both settings of the error flag: each node below the seed gets `parent age − age`, raised to the minimum when one is
+given (ids and pre-order kept, the seed's length untouched); with `error_on_negative_edge_lengths` the call raises
+ValueError exactly when one of those documented lengths is negative. -/
+theorem set_lengths_spec (minLen : Option Frac) (hm : ∀ m, minLen = some m → m.WF) (errNeg : Bool) (a : AT) (hw : AWF a) :
+    ((errNeg = true ∧ ∃ x ∈ specLensL (minLen.map Frac.toRat) a.age.toRat a.cs, x.2 < 0) →
+      setLens minLen errNeg a = .error .value) ∧
+    (¬ (errNeg = true ∧ ∃ x ∈ specLensL (minLen.map Frac.toRat) a.age.toRat a.cs, x.2 < 0) →
+      ∃ a', setLens minLen errNeg a = .ok a' ∧
+        atLens a' = (a.id, qlen a.len) :: specLensL (minLen.map Frac.toRat) a.age.toRat a.cs) := by
+  cases a with
+  | node i ag l cs =>
+    obtain ⟨h1, h2⟩ := setLensL_spec hm errNeg cs ag hw.1 hw.2
+    simp only [AT.age, AT.cs, AT.id, AT.len]
+    refine ⟨fun h => by simp [setLens, h1 h], fun h => ?_⟩
+    obtain ⟨r, hr, hl⟩ := h2 h
+    exact ⟨.node i ag l r, by simp [setLens, hr], by simp [atLens, hl]⟩
 
 /-! ## clause (c): statistics equal their definitions -/
 
@@ -539,6 +778,36 @@ theorem gamma_eq_def_partial (prec : Option Frac) (t : T) {r : Frac} (h : gamma 
   · rw [if_neg hall] at h
     cases h
 
+/-- Pybus–Harvey gamma equals its published definition.  On a strictly bifurcating, exactly ultrametric tree with
+positive edge lengths, whenever `pybus_harvey_gamma` returns a value: everything `gamma_eq_def_partial` states (sorted
+speciation ages `S`, `g_j = S_j − S_{j+1}`, `T = Σ (j+2) g_j`, the double sum, `γ·|γ| = sign(num)·num²·12(n−2)/T²`), and
+`g_j` is exactly the stretch of distances from the root on which `num_lineages_at` counts `j + 2` lineages. -/
+theorem gamma_eq_def (prec : Option Frac) (t : T) (hw : WFT t) (hb : binary t = true) (hpos : Pos t) (hu : Within 0 t)
+    {r : Frac} (h : gamma prec t = .ok r) :
+    (∃ (num tt : Frac) (n : Nat),
+      (sortDesc (specAges (annot t)).1).Perm (((T.nodes t).filter isBif).map fage) ∧
+      Desc (sortDesc (specAges (annot t)).1) ∧
+      (∀ j, ((intervals (sortDesc (specAges (annot t)).1)).map Frac.toRat).getD j 0
+        = ((sortDesc (specAges (annot t)).1).map Frac.toRat).getD j 0
+          - ((sortDesc (specAges (annot t)).1).map Frac.toRat).getD (j + 1) 0) ∧
+      n = ((T.nodes t).filter (fun v => !isBif v)).length ∧
+      ((intervals (sortDesc (specAges (annot t)).1)).map Frac.toRat).length + 1 = n ∧ 3 ≤ n ∧
+      tt.toRat = ∑ j ∈ Finset.range ((intervals (sortDesc (specAges (annot t)).1)).map Frac.toRat).length,
+        ((2 + j : ℕ) : ℚ) * ((intervals (sortDesc (specAges (annot t)).1)).map Frac.toRat).getD j 0 ∧
+      num.toRat = (∑ m ∈ Finset.range ((intervals (sortDesc (specAges (annot t)).1)).dropLast.map Frac.toRat).length,
+          ∑ j ∈ Finset.range (m + 1),
+            ((2 + j : ℕ) : ℚ) * ((intervals (sortDesc (specAges (annot t)).1)).dropLast.map Frac.toRat).getD j 0)
+          / ((n : ℚ) - 2) - tt.toRat / 2 ∧
+      tt.toRat ≠ 0 ∧
+      r.toRat = (if num.toRat < 0 then -1 else 1) * (num.toRat ^ 2 * (12 * ((n - 2 : ℕ) : ℚ)) / tt.toRat ^ 2)) ∧
+    ∀ (d : Frac) (j : Nat), d.WF → 0 < d.toRat → d.toRat ≤ (fage t).toRat →
+      j < ((sortDesc (specAges (annot t)).1).map Frac.toRat).length →
+      (fage t).toRat - ((sortDesc (specAges (annot t)).1).map Frac.toRat).getD j 0 < d.toRat →
+      d.toRat ≤ (fage t).toRat - ((sortDesc (specAges (annot t)).1).map Frac.toRat).getD (j + 1) 0 →
+      numLineagesAt d t = .ok (j + 2) :=
+  ⟨gamma_eq_def_partial prec t h,
+   fun d j hd hd0 hdH hj hlo hhi => lineages_between_speciations t hw hb hpos hu d hd hd0 hdH j hj hlo hhi⟩
+
 /-! ## child-order independence -/
 
 /-- Reordering children anywhere in the tree changes none of: leaf count and Sackin's index (hence N-bar and every
@@ -583,6 +852,88 @@ theorem stats_perm_invariant_partial {t u : T} (h : Iso t u) :
       obtain ⟨r', hr', hrq'⟩ := u1 (by rw [← htr.1, ← htr.2]; exact hz)
       exact Or.inr ⟨r, r', hr, hr', by rw [hrq, hrq', htr.1, htr.2]⟩
 
+/-- Child-order independence of the Pybus–Harvey gamma: on an exactly ultrametric tree, reordering children anywhere
+leaves the outcome of `pybus_harvey_gamma` unchanged — the same refusal, or the same value (`γ·|γ|` as a rational). -/
+theorem gamma_perm_invariant (prec : Option Frac) (hprec : ∀ p, prec = some p → p.WF) {t u : T} (h : Iso t u)
+    (hw : WFT t) (hu : Within 0 t) :
+    (∀ e, gamma prec t = .error e → gamma prec u = .error e) ∧
+    (∀ r, gamma prec t = .ok r → ∃ r', gamma prec u = .ok r' ∧ r'.toRat = r.toRat) := by
+  have hwe : WFT t = WFT u := wftStat.invariant h
+  have hwu : WFT u := by rw [← hwe]; exact hw
+  have huu : Within 0 u := within_of_perm hu (tipDists_iso h)
+  obtain ⟨pt, wt_, nt⟩ := specAges_values t hw
+  obtain ⟨pu, wu_, nu⟩ := specAges_values u hwu
+  have hn : (specAges (annot t)).2 = (specAges (annot u)).2 := by
+    rw [nt, nu]; exact nonBifStat.invariant h
+  have hpp : ((specAges (annot t)).1.map Frac.toRat).Perm ((specAges (annot u)).1.map Frac.toRat) :=
+    (pt.trans (bifAges_iso h hu)).trans pu.symm
+  have hlen : (specAges (annot t)).1.length = (specAges (annot u)).1.length := by
+    simpa using hpp.length_eq
+  have hS := sortDesc_map_eq wt_ wu_ hpp
+  have hwS : ∀ x ∈ sortDesc (specAges (annot t)).1, x.WF := fun x hx => wt_ x ((sortDesc_perm _).subset hx)
+  have hwS' : ∀ x ∈ sortDesc (specAges (annot u)).1, x.WF := fun x hx => wu_ x ((sortDesc_perm _).subset hx)
+  have hg : (intervals (sortDesc (specAges (annot t)).1)).map Frac.toRat
+      = (intervals (sortDesc (specAges (annot u)).1)).map Frac.toRat := by
+    rw [intervals_map _ hwS, intervals_map _ hwS', hS]
+  have hgd : ((intervals (sortDesc (specAges (annot t)).1)).dropLast).map Frac.toRat
+      = ((intervals (sortDesc (specAges (annot u)).1)).dropLast).map Frac.toRat := by
+    rw [List.map_dropLast, List.map_dropLast, hg]
+  have hnil : (specAges (annot t)).1 = [] ↔ (specAges (annot u)).1 = [] := by
+    constructor <;> intro h0
+    · exact List.eq_nil_of_length_eq_zero (by rw [← hlen, h0]; rfl)
+    · exact List.eq_nil_of_length_eq_zero (by rw [hlen, h0]; rfl)
+  rw [gamma_unfold prec hprec t hw hu, gamma_unfold prec hprec u hwu huu]
+  have same_err : ∀ k : Err, (∀ e, (Except.error k : Except Err Frac) = .error e → (Except.error k : Except Err Frac) = .error e) ∧
+      (∀ r, (Except.error k : Except Err Frac) = .ok r → ∃ r', (Except.error k : Except Err Frac) = .ok r' ∧ r'.toRat = r.toRat) :=
+    fun k => ⟨fun e he => he, fun r hr => (by cases hr)⟩
+  rcases gammaParts_cases (annot t) wt_ with ⟨t1, tg⟩ | ⟨t1, t2, tg⟩ | ⟨t1, t2, t3, tg⟩ | ⟨t1, t2, t3, num, tt, tg, wn, wt, htt, hnum⟩
+  · rcases gammaParts_cases (annot u) wu_ with ⟨_, ug⟩ | ⟨u1, _⟩ | ⟨u1, _⟩ | ⟨u1, _⟩
+    · rw [tg, ug]; exact same_err _
+    all_goals exact absurd (hnil.mp t1) u1
+  · rcases gammaParts_cases (annot u) wu_ with ⟨u1, _⟩ | ⟨_, _, ug⟩ | ⟨_, u2, _⟩ | ⟨_, u2, _⟩
+    · exact absurd (hnil.mpr u1) t1
+    · rw [tg, ug]; exact same_err _
+    all_goals (exfalso; omega)
+  · rcases gammaParts_cases (annot u) wu_ with ⟨u1, _⟩ | ⟨_, u2, _⟩ | ⟨_, _, _, ug⟩ | ⟨_, _, u3, _⟩
+    · exact absurd (hnil.mpr u1) t1
+    · exfalso; omega
+    · rw [tg, ug]; exact same_err _
+    · exfalso; omega
+  · rcases gammaParts_cases (annot u) wu_ with ⟨u1, _⟩ | ⟨_, u2, _⟩ | ⟨_, _, u3, _⟩ | ⟨_, _, _, num', tt', ug, wn', wt', htt', hnum'⟩
+    · exact absurd (hnil.mpr u1) t1
+    · exfalso; omega
+    · exfalso; omega
+    · rw [tg, ug]
+      simp only
+      have ett : tt'.toRat = tt.toRat := by rw [htt', htt, hg]
+      have enum : num'.toRat = num.toRat := by rw [hnum', hnum, hgd, hn, ett]
+      rcases gammaSignedSq_cases (specAges (annot t)).2 wn wt with ⟨z, gz⟩ | ⟨z, r, gr, hr⟩
+      · rcases gammaSignedSq_cases (specAges (annot u)).2 wn' wt' with ⟨_, gz'⟩ | ⟨z', _⟩
+        · rw [gz, gz']; exact same_err _
+        · exact absurd (ett.trans z) z'
+      · rcases gammaSignedSq_cases (specAges (annot u)).2 wn' wt' with ⟨z', _⟩ | ⟨_, r', gr', hr'⟩
+        · exact absurd (ett.symm.trans z') z
+        · rw [gr, gr']
+          refine ⟨fun e he => (by cases he), fun r0 hr0 => ⟨r', rfl, ?_⟩⟩
+          have : r0 = r := (Except.ok.inj hr0).symm
+          rw [this, hr', hr, enum, ett, hn]
+
+/-- Child-order independence of every statistic of the property: everything in `stats_perm_invariant_partial` (Sackin in
+all normalisations, N-bar, Colless in all normalisations, B1, tree length, treeness — as the functions the driver runs) and
+the Pybus–Harvey gamma (`gamma_perm_invariant`; its definition presupposes an exactly ultrametric tree). -/
+theorem stats_perm_invariant {t u : T} (h : Iso t u) :
+    ((∀ norm, sackin norm t = sackin norm u) ∧ nBar t = nBar u ∧
+    (∀ norm, colless norm t = colless norm u) ∧
+    (b1 t).toRat = (b1 u).toRat ∧
+    (WFT t → WFT u ∧ (C17.length t).toRat = (C17.length u).toRat) ∧
+    (WFT t → NoNone t →
+      (treeness t = .error .zerodiv ∧ treeness u = .error .zerodiv) ∨
+      (∃ r r', treeness t = .ok r ∧ treeness u = .ok r' ∧ r.toRat = r'.toRat))) ∧
+    (∀ prec : Option Frac, (∀ p, prec = some p → p.WF) → WFT t → Within 0 t →
+      (∀ e, gamma prec t = .error e → gamma prec u = .error e) ∧
+      (∀ r, gamma prec t = .ok r → ∃ r', gamma prec u = .ok r' ∧ r'.toRat = r.toRat)) :=
+  ⟨stats_perm_invariant_partial h, fun prec hprec hw hu => gamma_perm_invariant prec hprec h hw hu⟩
+
 /-! ## non-vacuity: the hypotheses above are satisfiable -/
 
 /-- `((A:1,B:1):1,C:2)` -/
@@ -617,6 +968,30 @@ example : ∃ a, calcNodeAges ⟨some Frac.one, false, false⟩
 
 /-- `gamma` really returns a value: `((A:1,B:1):1,C:2)` gives γ·|γ| = −3/25 at precision 0 -/
 example : gamma (some Frac.zero) exTree = .ok ⟨-3, 25⟩ := by rfl
+
+/-- the hypotheses of `lineages_between_speciations` / `gamma_eq_def` are satisfiable: `exTree` = `((A:1,B:1):1,C:2)` is
+binary (and well-formed, positive, exactly ultrametric by the example above), `S = [2, 1]`, `H = 2`, so `j = 0` with
+`d = 1/2` meets `H − S_0 = 0 < d ≤ 1 = H − S_1` -/
+example : binary exTree = true ∧ (sortDesc (specAges (annot exTree)).1).map Frac.toRat = [2, 1] ∧
+    (fage exTree).toRat = 2 ∧ gamma (some Frac.zero) exTree = .ok ⟨-3, 25⟩ := by
+  refine ⟨rfl, ?_, ?_, rfl⟩
+  · have : sortDesc (specAges (annot exTree)).1 = [⟨2, 1⟩, ⟨1, 1⟩] := by rfl
+    rw [this]; norm_num [Frac.toRat]
+  · have : fage exTree = ⟨2, 1⟩ := by rfl
+    rw [this]; norm_num [Frac.toRat]
+
+/-- the side conditions on the options of `set_edge_lengths_from_node_ages` hold for its defaults (minimum 0.0, no error
+flag), for minimum 0 with the flag, and for no minimum without it -/
+example : NegOK (some Frac.zero) false ∧ NegOK (some Frac.zero) true ∧ NegOK none false := by
+  refine ⟨fun h => (by cases h), fun _ => ⟨Frac.zero, rfl, (by simp [Frac.zero_toRat])⟩, fun h => (by cases h)⟩
+
+/-- `AWF` (every age attribute a well-formed fraction) is satisfiable, and the error branch of `set_lengths_spec` is real:
+parent age 1, child age 2, no minimum, error flag set -/
+example : AWF (.node 0 ⟨1, 1⟩ none [.node 1 ⟨2, 1⟩ none []]) ∧
+    setLens none true (.node 0 ⟨1, 1⟩ none [.node 1 ⟨2, 1⟩ none []]) = .error .value := by
+  have haw : AWF (.node 0 ⟨1, 1⟩ none [.node 1 ⟨2, 1⟩ none []]) := by simp [AWF, AWFL, Frac.WF]
+  refine ⟨haw, (set_lengths_spec none (fun m h => by cases h) true _ haw).1 ⟨rfl, (1, -1), ?_, by norm_num⟩⟩
+  simp [specLensL, newLenQ, AT.age, AT.cs, Frac.toRat]; norm_num
 
 /-- rejection really happens: `(A:1,B:3)` at precision 1 -/
 example : calcNodeAges ⟨some Frac.one, false, false⟩
